@@ -44,6 +44,7 @@ SIG_PROPMEAN = "|proposal-nonzero-mean"
 SIG_NOTCENTRED = "|proposal-not-centred"
 SIG_DTYPE = "|initial-point-dtype"
 SIG_GRADBUF = "|gradient-buffer-aliased"
+SIG_X0ALIAS = "experimental.Sampler.initialize|initial-point-aliased"
 
 
 # ------------------------------------------------------------------------------------------------
@@ -114,6 +115,10 @@ class Tgt:
 
     def g(self, x):
         v = self._g(x)
+        if self.spec.get("gradbuf") == "strided":     # a fresh, non-contiguous view on every call
+            w = np.zeros(2 * v.size)
+            w[::2] = v
+            return w[::2]
         if self.spec.get("gradbuf"):           # the adjoint-code pattern: fill and return one persistent work array
             if getattr(self, "_gbuf", None) is None:
                 self._gbuf = np.empty_like(v)
@@ -262,11 +267,15 @@ class Driver:
                     drv.xi_seen.append(np.array(r, dtype=float).reshape(-1))
                     return r
             form = ps.get("form", "scalar")
+            mdt = int if self.opts.get("int_params") else float
+            plain = bool(ps.get("plain"))             # the library's own class, not a recording subclass (exact-type dispatch)
             if form == "normal":            # independent normals given by standard deviations
-                self.prior = SpyNormal(np.array(ps["mean"], dtype=float), np.array(ps["std"], dtype=float), name="x")
+                cls_ = cuqi.distribution.Normal if plain else SpyNormal
+                self.prior = cls_(np.array(ps["mean"], dtype=mdt), np.array(ps["std"], dtype=float), name="x")
             else:
                 cov = float(ps["cov"]) if form == "scalar" else np.array(ps["cov"], dtype=float)
-                self.prior = SpyGaussian(np.array(ps["mean"], dtype=float), cov, name="x")
+                cls_ = cuqi.distribution.Gaussian if plain else SpyGaussian
+                self.prior = cls_(np.array(ps["mean"], dtype=mdt), cov, name="x")
             if T.kind == "lin":
                 model = cuqi.model.LinearModel(T.A)
                 y = cuqi.distribution.Gaussian(model, 1.0 / T.lam, name="y")
@@ -306,8 +315,11 @@ class Driver:
         cuqi = self.cuqi
         E, Lg = cuqi.experimental.mcmc, cuqi.sampler
         drv = self
-        sc = np.array(scale, dtype=float) if isinstance(scale, (list, tuple, np.ndarray)) else float(scale)
         o = self.opts
+        if o.get("int_params"):
+            sc = np.array([int(v) for v in scale]) if isinstance(scale, (list, tuple, np.ndarray)) else int(scale)
+        else:
+            sc = np.array(scale, dtype=float) if isinstance(scale, (list, tuple, np.ndarray)) else float(scale)
         d = self.T.dim
         # ---- the declaration style of the initial point ----
         xf = o.get("x0form", "array")
@@ -344,6 +356,8 @@ class Driver:
         elif pr is not None and self.kind == "cw":
             if pr == "locscale":
                 kw["proposal"] = cuqi.distribution.Normal(mean=lambda location: location, std=lambda scale: scale, geometry=d)
+            elif pr == "locscale2x":     # the conditioning variable is called like the sampler attribute but enters through a non-identity map
+                kw["proposal"] = cuqi.distribution.Normal(mean=lambda location: location, std=lambda scale: 2 * scale, geometry=d)
             elif pr == "meanstd" and self.iface == "leg":
                 kw["proposal"] = cuqi.distribution.Normal(geometry=d)
             elif pr == "callable" and self.iface == "leg":
@@ -391,14 +405,29 @@ class Driver:
                         drv.tune_log.append(rec)
                     return r
             Spy.__name__ = base.__name__
-            self.s = Spy(self.target, scale=sc, initial_point=x0arg, **kw)
+            if o.get("defaults"):
+                self.s = Spy(self.target, **kw)                      # every optional argument left at its shipped default
+                x0 = np.ones(d)
+            else:
+                self.s = Spy(self.target, scale=sc, initial_point=x0arg, **kw)
             self.s.initialize()
         else:
             cls = {"mh": Lg.MH, "cw": Lg.CWMH, "pcn": Lg.pCN, "mala": Lg.MALA, "ula": Lg.ULA}[self.kind]
-            self.s = cls(self.target, scale=sc, x0=x0arg, **kw)
+            if o.get("defaults") and self.kind in ("mh", "cw", "pcn"):
+                self.s = cls(self.target, **kw)
+                x0 = np.ones(d)
+            else:
+                self.s = cls(self.target, scale=sc, x0=x0arg, **kw)
             self.cur = (x0.copy(), self.eval_f(x0), self.eval_g(x0) if self.kind in ("mala", "ula") else np.zeros(0))
         if o.get("reassign_scale") is not None:          # attribute re-assigned on the live object
             self.s.scale = o["reassign_scale"]
+        self.x0arg, self.build_kw = x0arg, kw
+        if o.get("x0_overwrite") is not None and isinstance(x0arg, np.ndarray):
+            # the caller re-uses ITS array after handing it over (aliasing over time): the sampler must not be affected
+            x0arg[...] = np.array(o["x0_overwrite"], dtype=x0arg.dtype)
+            if self.iface == "leg":          # the legacy sampler reads x0 when sampling starts: the new content IS its start
+                xn = np.array(x0arg, dtype=float)
+                self.cur = (xn.copy(), self.eval_f(xn), self.eval_g(xn) if self.kind in ("mala", "ula") else np.zeros(0))
         self.T.calls.clear()
 
     @staticmethod
@@ -456,7 +485,16 @@ class Driver:
         if h["type"] == "fresh":
             return
         try:
-            if h["type"] == "prestep":
+            if h["type"] == "sibling":
+                # a second sampler built from the SAME target / proposal / prior / initial-point objects runs first
+                with ScriptedRandom(seed=h["seed"]), _quiet(), np.errstate(all="ignore"):
+                    if self.iface == "exp":
+                        sib = type(self.s)(self.target, scale=self.s.scale, initial_point=self.x0arg, **self.build_kw)
+                        sib.sample(h["n"])
+                    else:
+                        sib = type(self.s)(self.target, scale=self.s.scale, x0=self.x0arg, **self.build_kw)
+                        sib.sample(max(h["n"], 2))
+            elif h["type"] == "prestep":
                 # one scripted transition that is (almost surely) accepted, on this very sampler object, before the tested one
                 self.step(h["zpre"], [1e-300] * max(1, self.T.dim))
             else:
@@ -672,6 +710,8 @@ def log_q(y, mu, G):
 # ------------------------------------------------------------------------------------------------
 def log_pi(drv, x):
     """target log-density (up to a constant) at float point x, from exact Fractions; 'nan'/'ninf'/'pinf' tags kept"""
+    if not np.all(np.isfinite(np.asarray(x, dtype=float))):
+        return "nan"
     v = drv.T.F(fr(x))
     if isinstance(v, str):
         return v
@@ -863,6 +903,24 @@ def build_case(ctx, spec):
         return Case(expr="true", meta=spec, cell="%s/history-raises" % site, kind="DECISION",
                     impl_fail="%s history (%s) raised %s" % (site, spec["hist"]["type"], drv.hist_exc),
                     signature=info["sig"] + "|raises"), {"tune_log": []}
+    if opts.get("reassign_proposal") and kind == "mh":
+        # validation clauses must hold in every life-cycle state: the proposal is replaced on the LIVE sampler
+        import cuqi as _cq
+        d_ = T.dim
+        newp = _cq.distribution.Gaussian(np.zeros(d_) if opts["reassign_proposal"] == "valid" else np.array(opts["bad_mean"], dtype=float), 1.0)
+        try:
+            drv.s.proposal = newp
+            refused = False
+        except ValueError:
+            refused = True
+        if opts["reassign_proposal"] == "invalid":
+            spec = dict(spec, reassign_refused=refused)
+            msg_ = None if refused else ("a proposal with non-zero mean %s was accepted when assigned to the live sampler (it is refused at construction)"
+                                         % opts["bad_mean"])
+            return Case(expr="true", meta=spec, cell="%s/opt:%s" % (site, spec.get("optcell", "")), kind="DECISION", impl_fail=msg_,
+                        signature=(info["sig"] + SIG_PROPMEAN) if msg_ else ""), {"tune_log": []}
+        drv.opts = dict(drv.opts, proposal=None)
+        opts = dict(opts, proposal=None)
     x0, ld0, gr0 = drv.state()
     if not np.all(np.abs(x0) < 1e4):
         # the unadjusted chain (ULA) diverged during its history run: values of 1e10+ make 1e-9 comparisons meaningless;
@@ -873,6 +931,7 @@ def build_case(ctx, spec):
     sc = drv.scale()
     vscale = drv.vector_scale()
     sc_arg = sc if (kind == "cw" or vscale) else float(sc[0])
+    sc_eff = 2.0 * sc if (kind == "cw" and opts.get("proposal") == "locscale2x") else sc      # std the CW proposal is documented to use
     d = T.dim
     spec = dict(spec)
     if spec.get("steer"):
@@ -910,6 +969,10 @@ def build_case(ctx, spec):
         if site == "E.CWMH" and s in ("|state-cache", "|accept-rule") and opts.get("x0form") in ("int", "float32") \
                 and "tune()" not in msg:
             s = SIG_DTYPE
+        if opts.get("x0_overwrite") is not None and not legacy and s == "|state-cache" and "before the transition" in msg:
+            if fail is None:
+                fail, sig = msg + " (the caller overwrote, in place, the array it had passed as initial_point)", SIG_X0ALIAS
+            return
         if T.spec.get("gradbuf") and site in ("E.MALA", "E.ULA") and s in ("|state-cache", "|accept-rule") and "tune()" not in msg:
             s = SIG_GRADBUF
         if fail is None:
@@ -933,14 +996,18 @@ def build_case(ctx, spec):
     if kind == "ula":
         scr = scratch(drv, float(sc[0]))
         xs_pred = propose(scr, x0, z)
+        if xs_pred is not None and not (np.all(np.isfinite(xs_pred)) and np.all(np.abs(xs_pred) <= 1e8)):
+            xs_pred = None
         exact = exact and xs_pred is not None and T.exact_at(fr(xs_pred))
     if kind == "cw" and exact:
         for mask in itertools.product([0, 1], repeat=d):
-            pt = [frac(float(x0[j])) + frac(float(sc[j])) * frac(float(z[j])) if mask[j] else frac(float(x0[j])) for j in range(d)]
+            pt = [frac(float(x0[j])) + frac(float(sc_eff[j])) * frac(float(z[j])) if mask[j] else frac(float(x0[j])) for j in range(d)]
             exact = exact and T.exact_at(pt)
     if kind in ("mh", "pcn", "mala"):
         scr = scratch(drv, sc_arg)
         xs_pred = propose(scr, x0, z)
+        if xs_pred is not None and not (np.all(np.isfinite(xs_pred)) and np.all(np.abs(xs_pred) <= 1e8)):
+            xs_pred = None
         exact = exact and xs_pred is not None and T.exact_at(fr(xs_pred))
         if exact and kind == "mala":
             s_ = frac(float(sc[0]))
@@ -984,7 +1051,7 @@ def build_case(ctx, spec):
             cur = T.F(xt)
             for j in range(d):
                 xs_ = list(xt)
-                xs_[j] = frac(float(float(x0[j]) + float(sc[j]) * float(z[j])))
+                xs_[j] = frac(float(float(x0[j]) + float(sc_eff[j]) * float(z[j])))
                 new = T.F(xs_)
                 thr = None
                 if not isinstance(new, str) and not isinstance(cur, str):
@@ -1009,6 +1076,11 @@ def build_case(ctx, spec):
         prev_obj = drv.s.current_point
         prev_val = np.array(prev_obj, dtype=float).copy()
     o = drv.step(z, us)
+    if any((not np.all(np.isfinite(p_))) or np.any(np.abs(p_) > 1e8) for p_ in o["stars"]):
+        # generator domain: proposals with non-finite or astronomically large coordinates (heavy-tailed noise, diverging
+        # unadjusted chains) have no exact rational value to compare with; the case is dropped as trivial
+        return Case(expr="true", meta=_jsonable(dict(spec, dropped="proposal outside |x| <= 1e8")), cell="%s/out-of-domain" % site,
+                    trivial=True, kind="DECISION"), {"tune_log": drv.tune_log}
     if not legacy and o["err"] is None and not np.array_equal(np.array(prev_obj, dtype=float).reshape(-1), prev_val.reshape(-1)):
         flag("the transition modified, in place, the array object that held the previous state (recorded samples alias it)", "|state-cache")
     if real_rng and o["err"] is None:
@@ -1086,7 +1158,7 @@ def build_case(ctx, spec):
                          "|state-cache")
     elif kind == "cw":
         accs = [bool(a) for a in np.ravel(o["acc"])]
-        if o["loc"] is None or not np.array_equal(o["loc"], x0) or not np.array_equal(np.broadcast_to(o["std"], (d,)), sc):
+        if o["loc"] is None or not np.array_equal(o["loc"], x0) or not np.array_equal(np.broadcast_to(o["std"], (d,)), sc_eff):
             flag("component proposals are not drawn from N(current point, scale^2): loc=%s std=%s" % (o["loc"], o["std"]), "|accept-rule")
         else:
             xt = fr(x0)
@@ -1146,10 +1218,16 @@ def build_case(ctx, spec):
             cnat({"gauss": 0, "cauchy": 6, "uniform": 7}[fam_]))
     elif kind == "cw":
         expr = "check_cwmh %s %s %s %s %s %s %s %s %s %s %s %s %s" % (
-            tolq, Tc, g, cqvec(sc), cstate(x0, ld0, gr0), cqvec(z), clist([cext(l) for l in logus]),
+            tolq, Tc, g, cqvec(sc_eff), cstate(x0, ld0, gr0), cqvec(z), clist([cext(l) for l in logus]),
             cqvec(o["loc"] if o["loc"] is not None else []), cqvec(np.broadcast_to(o["std"], (d,)) if o["std"] is not None else []),
             cstate(x1, ld1, gr1), clist([cbool(a) for a in np.ravel(o["acc"])]), logc, cbool(legacy))
     elif kind == "pcn":
+        if o["xi"] is None and spec["prior"].get("plain"):
+            ps_ = spec["prior"]
+            if ps_.get("form") == "normal":
+                o["xi"] = o["ret"]
+            else:
+                o["xi"] = np.array(ps_["mean"], dtype=float) + np.sqrt(np.array(ps_["cov"], dtype=float)) * z
         s_ = float(sc[0])
         a_ = float(np.sqrt(max(1 - s_ ** 2, 0.0)))          # a scale above 1 (never produced by the unchanged tune) must not crash the harness
         expr = "check_pcn %s %s %s %s %s %s %s %s %s %s %s %s %s %s %s %s" % (
@@ -1406,6 +1484,28 @@ def option_cells():
             cells.append((site, "reload-of-zero-logd", {}, {"zero_reload": True}))
         for nb in (1, 9, 10, 11):
             cells.append((site, "warmup-n=%d" % nb, {}, {"warm_n": nb}))
+    for site in SITES:
+        k_ = SITES[site]["kind"]
+        cells.append((site, "L15:caller-overwrites-x0-array", {}, {"x0_overwrite": True}))
+        cells.append((site, "L22:all-defaults", {"defaults": True}, {"defaults": True}))
+        cells.append((site, "L25:sibling-sampler-shares-arguments", {}, {"hist": "sibling"}))
+        cells.append((site, "L26:logd-offset", {}, {"offset": True}))
+        cells.append((site, "L21:warmup-0-then-step", {}, {"warm_n": 0}))
+        if k_ in ("mh", "cw", "mala", "ula"):
+            cells.append((site, "L20:integer-scale", {"int_params": True}, {"int_scale": True}))
+        if k_ == "pcn":
+            cells.append((site, "L20:integer-prior-mean", {"int_params": True}, {"prior_form": "vector", "prior_mean": "mixed", "dim": 0}))
+            for form in ("scalar", "vector", "normal"):
+                cells.append((site, "L23:plain-%s-prior" % form, {}, {"prior_form": form, "prior_mean": "mixed", "dim": 0, "plain": True}))
+        if k_ == "cw":
+            cells.append((site, "L18:scale-with-zero-entry", {}, {"zero_scale": True}))
+            cells.append((site, "L17:proposal-std=2*scale", {"proposal": "locscale2x"}, {}))
+        if k_ in ("mala", "ula"):
+            cells.append((site, "L19:gradient=strided-view", {}, {"gradbuf": "strided"}))
+    for site in ("E.MH", "L.MH"):
+        cells.append((site, "L18:vector-scale-with-zero-entry", {}, {"vscale": True, "zero_scale": True}))
+        cells.append((site, "L14:proposal-reassigned-valid", {"reassign_proposal": "valid"}, {"hist": "prestep"}))
+        cells.append((site, "L14:proposal-reassigned-nonzero-mean", {"reassign_proposal": "invalid"}, {"hist": "prestep"}))
     for site in ("E.MALA", "L.MALA", "E.ULA", "L.ULA"):
         cells.append((site, "gradient=reused-buffer", {}, {"gradbuf": True}))
         cells.append((site, "gradient=reused-buffer,after-step", {}, {"gradbuf": True, "hist": "prestep"}))
@@ -1470,7 +1570,7 @@ def option_cases(ctx):
             hist = "fresh" if (extra.get("mag") or rep_ % 2 == 0) else rng.choice(["warmup", "reload"])
             if opts.get("rng") == "scripted":
                 hist = "fresh"
-            if extra.get("warm_n"):
+            if extra.get("warm_n") is not None:
                 hist = "warmup"
             if extra.get("hist"):
                 hist = extra["hist"]
@@ -1480,8 +1580,14 @@ def option_cases(ctx):
             spec = gen_spec(ctx, site, fam, None, hist, idx, dim=dim_)
             d = len(spec["x0"])
             if extra.get("gradbuf"):
-                spec["target"]["gradbuf"] = True
-            if extra.get("warm_n"):
+                spec["target"]["gradbuf"] = extra["gradbuf"]
+            if extra.get("offset") and spec["target"]["kind"] == "quad":
+                spec["target"]["c"] = rng.choice([2.0 ** 30, -2.0 ** 40, 2.0 ** 20 + 0.5])
+            if extra.get("defaults") and SITES[site]["iface"] == "leg" and kind in ("mh", "pcn"):
+                hist = "warmup"                       # legacy MH / pCN have no default scale for sample(); sample_adapt sets 0.1
+                spec["hist"]["type"] = "warmup"
+                spec["hist"]["n"] = max(spec["hist"]["n"], 10)      # Na = int(0.1 N) must be >= 1
+            if extra.get("warm_n") is not None:
                 n_ = extra["warm_n"]
                 if SITES[site]["iface"] == "leg":
                     n_ = max(n_, 10)                  # legacy sample_adapt: Na = int(0.1 N) must be >= 1
@@ -1534,11 +1640,32 @@ def option_cases(ctx):
                 spec["x0"] = [1.0] * d
                 if hist == "reload":
                     spec["hist"]["x02"] = [1.0] * d
+            if extra.get("x0_overwrite"):
+                o["x0_overwrite"] = [v + 2.0 for v in spec["x0"]]
+                spec["hist"]["type"] = "fresh" if SITES[site]["iface"] == "exp" else spec["hist"]["type"]
+            if extra.get("defaults"):
+                spec["x0"] = [1.0] * d
+                if spec["hist"]["type"] == "reload":
+                    spec["hist"]["type"] = "fresh"
+            if extra.get("int_scale"):
+                spec["scale"] = [rng.choice([1, 2]) for _ in range(d)] if kind == "cw" else rng.choice([2, 4] if kind in ("mala", "mh") else [1])
+                if kind == "ula":
+                    spec["scale"] = 1
+                spec["hist"]["type"] = "fresh"
+            if extra.get("plain"):
+                spec_plain = True
+            if o.get("reassign_proposal") == "invalid":
+                o["bad_mean"] = mean_vec(rng, d, "mixed" if d >= 2 else "nonzero", (-1, 1, 2))
             if extra.get("reassign"):
                 o["reassign_scale"] = rng.choice([0.25, 0.5, 0.125]) if kind not in ("mala", "ula") else rng.choice([0.25, 1 / 16])
                 spec["hist"]["type"] = "fresh"
             if extra.get("vscale"):
                 spec["scale"] = [rng.choice([1.0, 0.5, 0.25, 2.0, 0.3]) for _ in range(d)]
+                spec["hist"]["type"] = "fresh"
+            if extra.get("zero_scale"):
+                sc_l = [rng.choice([0.5, 0.25, 2.0]) for _ in range(d)]
+                sc_l[rng.randrange(d)] = 0.0
+                spec["scale"] = sc_l
                 spec["hist"]["type"] = "fresh"
             if extra.get("prior_form"):
                 form = extra["prior_form"]
@@ -1548,6 +1675,8 @@ def option_cases(ctx):
                 else:
                     spec["prior"] = {"mean": mean, "form": form, "cov": spd(rng, d, form)}
                 spec["ustrat"] = "between" if any(mean) else spec["ustrat"] if spec["ustrat"] != "between" else "rand"
+                if extra.get("plain"):
+                    spec["prior"]["plain"] = True
             if extra.get("mag"):
                 m_ = 2.0 ** extra["mag"]
                 t = spec["target"]
@@ -1719,7 +1848,13 @@ def chain_cases(ctx):
     out = []
     variants = [(site, False) for site in ("E.MH", "E.CWMH", "E.PCN", "E.MALA", "L.MH", "L.pCN", "L.MALA")]
     variants += [("E.MALA", True), ("L.MALA", True)]            # gradient returned in a reused work buffer
+    variants += [("L.MH", "step"), ("L.pCN", "step"), ("L.MALA", "step")]   # the legacy one-transition entry point Sampler.step(x)
+    variants += [("L.MH", "overwrite"), ("L.pCN", "overwrite"), ("L.MALA", "overwrite")]   # caller re-uses its x0 array before sample()
     for site, gradbuf in variants:
+        entry_step = gradbuf == "step"
+        overwrite = gradbuf == "overwrite"
+        if entry_step or overwrite:
+            gradbuf = False
         info = SITES[site]
         kind, legacy = info["kind"], info["iface"] == "leg"
         for rep in range(ctx.n(4 if gradbuf else 3, 40)):
@@ -1733,7 +1868,7 @@ def chain_cases(ctx):
             prior = {"mean": [0.0] * d, "cov": 1.0} if kind == "pcn" else None
             scale = {"mh": 0.5, "cw": [0.5] * d, "pcn": 1.0, "mala": 0.25}[kind]
             x0 = [dy(rng, -2, 1, 4) for _ in range(d)]
-            n = 7 if gradbuf else 3
+            n = 7 if gradbuf else (2 if entry_step else 3)
             zs = [[dy(rng, -3, 3, 4) for _ in range(d)] for _ in range(n)]
             uu = [[rng.choice([1.0, 0.75, 0.5, 0.25, 0.03125]) for _ in range(d if kind == "cw" else 1)] for _ in range(n)]
             if gradbuf:
@@ -1754,11 +1889,20 @@ def chain_cases(ctx):
                     return uq.pop(0)
                 if k_ == "uniform":
                     return np.full(a[2], uq.pop(0))
+            if overwrite:
+                xnew = np.array([v + 1.5 for v in x0])
+                drv.x0arg[...] = xnew              # the legacy sampler reads x0 when sample() starts: this IS the start now
+                drv.cur = (xnew.copy(), drv.eval_f(xnew), drv.eval_g(xnew) if kind == "mala" else np.zeros(0))
             x_init, ld_init, gr_init = drv.state()
             err = None
             with ScriptedRandom(seed=1, script=script), np.errstate(all="ignore"), _quiet():
                 try:
-                    if legacy:
+                    if legacy and entry_step:
+                        nxt = drv.s.step(np.array(x_init, dtype=float))
+                        pts = [np.array(nxt, dtype=float).reshape(-1)]
+                        lds = [Fval(T.F(fr(pts[0])))]           # step() hands back the point only
+                        accs = None
+                    elif legacy:
                         r = drv.s.sample(n)          # x0 is sample 0; n-1 transitions
                         pts = [np.array(r.samples[:, i], dtype=float) for i in range(1, n)]
                         lds = [float(v) for v in r.loglike_eval[1:]]
@@ -1770,6 +1914,9 @@ def chain_cases(ctx):
                 except Exception as e:   # noqa
                     err = repr(e)
             if err is not None:
+                meta = {"op": "chain", "site": site, "target": tspec, "prior": prior, "scale": scale, "x0": x0, "zs": zs, "us": uu, "n": n}
+                out.append(Case(expr="true", meta=_jsonable(meta), cell="%s/chain/raises" % site, kind="DECISION",
+                                impl_fail="sampling %d steps raised %s" % (n, err), signature=info["sig"] + "|raises"))
                 continue
             ntr = n - 1 if legacy else n
             # exact reference chain (oracle, Fractions): recompute decisions
@@ -1821,7 +1968,7 @@ def chain_cases(ctx):
                 expr = "check_chain %s %s %s %s %s %s %s %s" % (tolc, T.coq(), kq, scq, cstate(x_init, ld_init, gr_init), draws,
                                                                cstate(xf, ldf, grf), obs_rec)
             meta = {"op": "chain", "site": site, "target": tspec, "prior": prior, "scale": scale, "x0": x0, "zs": zs, "us": uu, "n": n}
-            out.append(Case(expr=expr, meta=_jsonable(meta), cell="%s/chain/%s%s" % (site, T.kind, "+gradbuf" if gradbuf else ""), kind="EXACT",
+            out.append(Case(expr=expr, meta=_jsonable(meta), cell="%s/chain/%s%s%s" % (site, T.kind, "+gradbuf" if gradbuf else "", "/via-step(x)" if entry_step else ("/x0-overwritten" if overwrite else "")), kind="EXACT",
                             impl_fail=fail, signature=(info["sig"] + fsig) if fail else ""))
     return out
 
@@ -1990,8 +2137,17 @@ def _witness_gradbuf(ctx):
     return (c.impl_fail is not None and c.signature.endswith(SIG_GRADBUF)), (c.impl_fail or "decision agrees with the MH probability; cached gradient intact")
 
 
+def _witness_x0alias(ctx):
+    spec = {"site": "E.MH", "target": {"kind": "quad", "P": [[1.0]], "m": [0.0], "c": 0, "hole": None}, "prior": None,
+            "scale": 0.5, "x0": [1.0], "z": [0.5], "hist": {"type": "fresh", "seed": 0, "n": 0}, "ustrat": "rand", "u": [0.5],
+            "hole_class": None, "exact": True, "opts": {"x0_overwrite": [3.0]}, "optcell": "L15:caller-overwrites-x0-array"}
+    c, _ = build_case(ctx, spec)
+    return (c.impl_fail is not None and c.signature == SIG_X0ALIAS), (c.impl_fail or "the sampler's state is unaffected by the caller's write")
+
+
 def known_witnesses(ctx):
     out = {}
+    out[SIG_X0ALIAS] = _witness_x0alias(ctx)
     out[SITES["E.MALA"]["sig"] + SIG_GRADBUF] = _witness_gradbuf(ctx)
     out[SITES["E.CWMH"]["sig"] + SIG_DTYPE] = _witness_dtype(ctx)
     for site in ("E.MH", "L.MH"):
